@@ -16,7 +16,8 @@ Inductive int_constraint :=
 | CRange (lo hi : option Z) (ext sext : bool) (* (lo..hi[, ...]); None = MIN / MAX / non-integer bound;
                                                   sext: marker at the level of the whole element set: ((lo..hi), ...) *)
 | CSingle (v : Z) (ext sext : bool)          (* (v[, ...]) / ((v), ...) *)
-| COther.                                  (* anything else: set operations, table constraints, ... *)
+| COther (last_ext : bool).               (* anything else: set operations, table constraints, ...; last_ext: a set operation
+                                             whose marker the parser left on its last operand, `(2..3 | 5, ...)` *)
 
 Definition integer_constraints (c : int_constraint) : int_ty :=
   match c with
@@ -25,12 +26,12 @@ Definition integer_constraints (c : int_constraint) : int_ty :=
         (match lo with Some i => Z.min i i128_max | None => i128_max end)
         (match hi with Some i => Z.max i i128_min | None => i128_min end) (ext || sext)
   | CSingle v ext sext => integer_constraints_ladder (Z.min v i128_max) (Z.max v i128_min) (ext || sext)
-  | COther => integer_constraints_ladder i128_max i128_min false
+  | COther _ => integer_constraints_ladder i128_max i128_min false
   end.
 
 (* Constraint::is_extensible: a marker on the element set as a whole or on its only element *)
 Definition c_extensible (c : int_constraint) : bool :=
-  match c with CRange _ _ ext sext | CSingle _ ext sext => ext || sext | COther => false end.
+  match c with CRange _ _ ext sext | CSingle _ ext sext => ext || sext | COther e => e end.
 
 (* the last of the serial constraints (X.680 50.8: it decides about extensibility) *)
 Definition last_extensible (cs : list int_constraint) : bool :=
